@@ -31,18 +31,25 @@ Definition inst_cln (k : option nat) : list (list pop * option nat) := [([OCreat
 Definition inst_mon_exit : list (list pop * option nat) := [([OCreate; OExit], None); ([OState], None)].
 
 Definition FUEL := 20000%nat.
-Definition check (priv nlc : bool) P ps : bool :=
-  let S := reach_set priv nlc ps FUEL in mem (init_st ps) S && closed priv nlc P S.
+Definition check_with (priv nlc : bool) P ps (S : list st) : bool := mem (init_st ps) S && closed priv nlc P S.
+Definition check (priv nlc : bool) P ps : bool := check_with priv nlc P ps (reach_set priv nlc ps FUEL).
+
+Lemma check_with_sound priv nlc P ps S :
+  check_with priv nlc P ps S = true ->
+  forall sched t c' es,
+    step1 (step priv nlc) t (fst (run (step priv nlc) sched (init (progs_of ps) (kills_of ps)))) = Some (c', es) ->
+    exists s, rel (fst (run (step priv nlc) sched (init (progs_of ps) (kills_of ps)))) s /\ P s t es = true.
+Proof.
+  intros H. unfold check_with in H. apply andb_prop in H. destruct H as [Hm Hc].
+  intros. eapply closed_transitions; eauto. apply rel_init.
+Qed.
 
 Lemma check_sound priv nlc P ps :
   check priv nlc P ps = true ->
   forall sched t c' es,
     step1 (step priv nlc) t (fst (run (step priv nlc) sched (init (progs_of ps) (kills_of ps)))) = Some (c', es) ->
     exists s, rel (fst (run (step priv nlc) sched (init (progs_of ps) (kills_of ps)))) s /\ P s t es = true.
-Proof.
-  intros H. apply andb_prop in H. destruct H as [Hm Hc].
-  intros. eapply closed_transitions; eauto. apply rel_init.
-Qed.
+Proof. intros H. exact (check_with_sound priv nlc P ps _ H). Qed.
 
 (* the guard process of a related list state *)
 Lemma rel_guard c s : rel c s -> Nat.ltb 0 (length (snd s)) = true ->
